@@ -9,12 +9,14 @@ use bytes::Bytes;
 
 /// Connection and disconnection events in the server.
 #[derive(Debug, PartialEq, Eq)]
+#[cfg_attr(feature = "verif", derive(Clone))]
 pub enum ServerEvent {
     ClientConnected { client_id: ClientId },
     ClientDisconnected { client_id: ClientId, reason: DisconnectReason },
 }
 
 #[derive(Debug)]
+#[cfg_attr(feature = "verif", derive(Clone))]
 pub struct RenetServer {
     connections: HashMap<ClientId, RenetClient>,
     connection_config: ConnectionConfig,
@@ -307,5 +309,30 @@ impl RenetServer {
         }
 
         Ok(())
+    }
+}
+
+#[cfg(feature = "verif")]
+impl RenetServer {
+    /// Verification hook: read-only access to the connection object of a client.
+    pub fn verif_connection(&self, client_id: ClientId) -> Option<&RenetClient> {
+        self.connections.get(&client_id)
+    }
+
+    /// Verification hook: mutable access to the connection object of a client (counter setters only).
+    pub fn verif_connection_mut(&mut self, client_id: ClientId) -> Option<&mut RenetClient> {
+        self.connections.get_mut(&client_id)
+    }
+
+    /// Verification hook: ids of all connection objects (any status), sorted.
+    pub fn verif_connection_ids(&self) -> Vec<ClientId> {
+        let mut ids: Vec<ClientId> = self.connections.keys().copied().collect();
+        ids.sort_unstable();
+        ids
+    }
+
+    /// Verification hook: number of queued, not yet consumed server events.
+    pub fn verif_pending_events(&self) -> usize {
+        self.events.len()
     }
 }
